@@ -7,6 +7,7 @@ mod stream;
 mod c04;
 mod pwstr;
 mod c05;
+mod c16;
 
 #[global_allocator]
 static GLOBAL: c04::Counting = c04::Counting;
@@ -32,6 +33,7 @@ fn main() {
         "C04" => c04::run(&mut out, tier, seed),
         "C10" => pwstr::run_c10(&mut out, tier, seed),
         "C05" => c05::run(&mut out, tier, seed),
+        "C16" => c16::run(&mut out, tier, seed),
         _ => { eprintln!("unknown property {}", prop); std::process::exit(2); }
     }
     out.finish(prop, tier, seed);
